@@ -182,6 +182,26 @@ func (it Item) Instantiate(n int, entryName string) (string, string) {
 
 // FarOutside: constructs far outside the subset (C07: goose must answer with structured errors, never crash).
 var FarOutside = []Item{
+	{"panic.int", "func pi%d(x uint64) uint64 {\n\tif x > 5 {\n\t\tpanic(3)\n\t}\n\treturn x\n}\n", "return pi%d(1)", "uint64"},
+	{"panic.const-string", "const pcs%dm = \"bad state\"\n\nfunc pcs%d(x uint64) uint64 {\n\tif x > 5 {\n\t\tpanic(pcs%dm)\n\t}\n\treturn x\n}\n", "return pcs%d(1)", "uint64"},
+	{"panic.concat", "func pcc%d(x uint64) uint64 {\n\tif x > 5 {\n\t\tpanic(\"a\" + \"b\")\n\t}\n\treturn x\n}\n", "return pcc%d(1)", "uint64"},
+	{"panic.bool", "func pb%d(x uint64) uint64 {\n\tif x > 5 {\n\t\tpanic(true)\n\t}\n\treturn x\n}\n", "return pb%d(1)", "uint64"},
+	{"panic.variable", "func pv%d(x uint64) uint64 {\n\tif x > 5 {\n\t\tpanic(x)\n\t}\n\treturn x\n}\n", "return pv%d(1)", "uint64"},
+	{"panic.nil", "func pn%d(x uint64) uint64 {\n\tif x > 5 {\n\t\tpanic(nil)\n\t}\n\treturn x\n}\n", "return pn%d(1)", "uint64"},
+	{"panic.float", "func pf%d(x uint64) uint64 {\n\tif x > 5 {\n\t\tpanic(1.5)\n\t}\n\treturn x\n}\n", "return pf%d(1)", "uint64"},
+	{"recursion.mutual", "func rma%d(n uint64) uint64 {\n\tif n == 0 {\n\t\treturn 0\n\t}\n\treturn rmb%d(n-1) + 1\n}\n\nfunc rmb%d(n uint64) uint64 {\n\tif n == 0 {\n\t\treturn 0\n\t}\n\treturn rma%d(n-1) + 2\n}\n", "return rma%d(3)", "uint64"},
+	{"recursion.mutual-three", "func rta%d(n uint64) uint64 {\n\tif n == 0 {\n\t\treturn 0\n\t}\n\treturn rtb%d(n - 1)\n}\n\nfunc rtb%d(n uint64) uint64 {\n\tif n == 0 {\n\t\treturn 1\n\t}\n\treturn rtc%d(n - 1)\n}\n\nfunc rtc%d(n uint64) uint64 {\n\tif n == 0 {\n\t\treturn 2\n\t}\n\treturn rta%d(n - 1)\n}\n", "return rta%d(4)", "uint64"},
+	{"recursion.type-cycle", "type rtn%d struct {\n\tnext *rtn%d\n\tv uint64\n}\n\nfunc rtl%d() uint64 {\n\ta := &rtn%d{v: 1}\n\tb := &rtn%d{v: 2, next: a}\n\treturn b.next.v + b.v\n}\n", "return rtl%d()", "uint64"},
+	{"recursion.type-mutual", "type rua%d struct {\n\tb *rub%d\n}\n\ntype rub%d struct {\n\ta *rua%d\n\tv uint64\n}\n\nfunc ruc%d() uint64 {\n\tx := &rub%d{v: 3}\n\ty := &rua%d{b: x}\n\treturn y.b.v\n}\n", "return ruc%d()", "uint64"},
+	{"const.cycle-free-forward", "const cfa%d uint64 = cfb%d + 1\n\nconst cfb%d uint64 = 4\n", "return cfa%d", "uint64"},
+	{"init.two", "var itv%d uint64\n\nfunc init() {\n\titv%d = 1\n}\n\nfunc init() {\n\titv%d = itv%d + 1\n}\n", "return itv%d", "uint64"},
+	{"method.on-pointer-to-named-int", "type mpn%dt uint64\n\nfunc (p *mpn%dt) inc() {\n\t*p = *p + 1\n}\n\nfunc mpn%d() uint64 {\n\tvar x mpn%dt = 3\n\tx.inc()\n\treturn uint64(x)\n}\n", "return mpn%d()", "uint64"},
+	{"label.unused", "func lu%d(x uint64) uint64 {\n\tvar y uint64 = x\nagain:\n\tfor y < 5 {\n\t\ty = y + 1\n\t\tcontinue again\n\t}\n\treturn y\n}\n", "return lu%d(1)", "uint64"},
+	{"empty.func-body-return", "func efb%d() {\n\treturn\n}\n", "efb%d()\n\treturn 1", "uint64"},
+	{"func.literal-toplevel-var", "var flt%d = func(x uint64) uint64 {\n\treturn x + 1\n}\n", "return flt%d(2)", "uint64"},
+	{"struct.zero-fields", "type szf%d struct{}\n\nfunc (s szf%d) one() uint64 {\n\treturn 1\n}\n", "return szf%d{}.one()", "uint64"},
+	{"big.shift-const", "func bsc%d() uint64 {\n\treturn 1<<64 - 1\n}\n", "return bsc%d()", "uint64"},
+	{"rune.literal", "func rl%dr() uint64 {\n\treturn uint64('a') + uint64('\\n')\n}\n", "return rl%dr()", "uint64"},
 	{"chan.basic", "func ch%d() uint64 {\n\tc := make(chan uint64, 1)\n\tc <- 3\n\treturn <-c\n}\n", "return ch%d()", "uint64"},
 	{"select", "func se%d() uint64 {\n\tc := make(chan uint64, 1)\n\tc <- 1\n\tselect {\n\tcase v := <-c:\n\t\treturn v\n\tdefault:\n\t\treturn 0\n\t}\n}\n", "return se%d()", "uint64"},
 	{"float", "func fl%d(x uint64) uint64 {\n\tf := float64(x) * 1.5\n\treturn uint64(f)\n}\n", "return fl%d(4)", "uint64"},
